@@ -12,12 +12,14 @@ RULE = ("the decoder's decision tree as in C03 (ascii, latin-1 complete; utf-8 t
         "every entry of both tables fed whole under every encoding and mode; seeded streams cut under the three "
         "modes; under utf-16, utf-16-le, utf-32 and cp1252 (real code only) every 1-byte string, 256 x 20 2-byte strings, "
         "structured texts and seeded random streams of <= 10 bytes compared across the three modes; every valid configuration name (C-a..C-z, C-A..C-Z, M-<0x20..0x7e>, M-<3 non-ASCII characters>, F1..F12, SPECIALS, the empty name) and a "
-        "catalogue of 44 invalid or unusual ones (model/implementation correspondence only). non-trivial = distinct "
+        "catalogue of invalid or unusual ones: the 18 that are malformed under any reading must be rejected or map to "
+        "nothing, never to a key the decoder produces (oracle); exact behaviour on all of them tied at representation level. non-trivial = distinct "
         "case with at least 2 bytes or a non-ASCII byte, or a configuration name")
 ASSUMPTIONS = ["JUDGED DOMAIN of 'every key a configuration file can name' (all letters, all printable characters, all function "
                "keys, all specials): C-<letter a..z and A..Z>, M-<printable ASCII character 0x20..0x7e>, M-<non-ASCII printable "
                "character: the representatives U+00E9, U+00DF, U+0416>, F1-F12, the documented SPECIALS, and the empty (unbound) "
-               "name; malformed names are tied model<->implementation (catalogue), not judged. Known finding D42 covers "
+               "name; names malformed under any reading (MALFORMED) are judged: rejected or mapped to nothing, never bound to a "
+               "producible key; the exact behaviour on the whole catalogue (KeyError today) is tied at representation level only. Known finding D42 covers "
                "C-<UPPER-CASE letter> and M-<non-ASCII character> (names never produced) - footprint: exactly those name shapes "
                "with 'name not producible' as the deviation",
                "the model covers the property's three encodings (utf-8, ascii, latin-1); utf-16, utf-16-le, utf-32 and cp1252 "
@@ -53,6 +55,11 @@ def is_d42_name(n):
 CATALOGUE = ["x", "C", "M", "F", "C-", "M-", "F-", "c-a", "m-a", "f1", "C-1", "C-\u00c9", "C-ab", "C--", "M-ab", "M-  ",
              "M-\x7f", "C-\xe9", "F0", "F00", "F01", "F012", "F13", "F99", "F123456789", "F1a", "Fa", "F 1",
              "F-1", "F+1", " ", "C_a", "CC-a", "-", "--", "a-C", "F1 ", " F1", "C-[[", "C-^^", "C-i ", "M-M-a"]
+
+
+# malformed under ANY reading of "C-<letter>, M-<character>, F1-F12 and the documented special cases": non-empty, not in
+# SPECIALS, neither C-x nor M-x nor F<digits>, and not a mere case / whitespace variant of one
+MALFORMED = ["x", "C", "M", "F", "F-", "Fa", "F-1", "F+1", "F 1", "F1a", " ", "-", "--", "C_a", "a-C", "CC-a", "xF1", "Q-a"]
 
 
 def line(c):
@@ -210,7 +217,8 @@ def check(ctx, search=False):
     if not search:
         ctx.tie("C20/keymap", [("keymap", n) for n in VALID], line, impl)
         # names the property is silent on (malformed, other spellings): a maintainer may start accepting them
-        ctx.tie("C20/keymap-catalogue", [("keymap", n) for n in CATALOGUE], line, impl, level="representation")
+        ctx.tie("C20/keymap-catalogue", [("keymap", n) for n in CATALOGUE + [m for m in MALFORMED if m not in CATALOGUE]],
+                line, impl, level="representation")
     prod = producible()
     ctx.exhaustive.append("configuration names: %d valid + %d catalogue; decoder-producible names: %d" % (len(VALID), len(CATALOGUE), len(prod)))
     for n in VALID:
@@ -232,6 +240,17 @@ def check(ctx, search=False):
                               "D42" if is_d42_name(n) else None)
     for n in CATALOGUE:
         ctx.count(("keymap", n), tag="config-catalogue")
+    # the "catalogue of invalid ones": a malformed name may be rejected or map to nothing, never to a key the decoder produces
+    for n in MALFORMED:
+        ctx.count(("keymap", n), tag="config-malformed")
+        assert n and n not in SPECIALS and n not in VALID
+        try:
+            got = tuple(keymap[n])
+        except Exception:  # noqa: BLE001 - rejecting it (KeyError today) is fine
+            continue
+        hit = [name for name in got if name in prod]
+        if hit:
+            ctx.violation("a malformed configuration name is silently bound to the key %r" % hit[0], ("keymap", n), None)
 
 
 def search(ctx):
